@@ -74,7 +74,12 @@ def rich_lines(rng, tag, fmt, nlines=None):
                 segs.append(['t', T.word(rng, p_meta=0.2)])
                 segs.append(['c', 'color'])
                 segs.append(['t', ' '])
-            elif r < 0.87 and fmt in ('dfxp', 'sami'):
+            elif r < 0.84 and fmt in ('dfxp', 'sami'):
+                # the only blank between two words sits alone inside a styled span
+                kind = rng.choice(['i', 'b', 'u'])
+                segs += [['t', T.word(rng, p_meta=0)], ['o', kind, None], ['t', ' '], ['c', kind],
+                         ['t', T.word(rng, p_meta=0) + ' ']]
+            elif r < 0.9 and fmt in ('dfxp', 'sami'):
                 segs.append(['t', T.word(rng, p_meta=0)])
                 segs.append(['wrap'])
                 segs.append(['t', T.word(rng, p_meta=0) + ' '])
@@ -83,6 +88,9 @@ def rich_lines(rng, tag, fmt, nlines=None):
         if fmt in ('dfxp', 'sami') and k == 0 and rng.random() < 0.12:
             segs.insert(0, ['lead', rng.choice(['\n    ', '\n    \n    ', '\r\n\t', '\n  \t \n      '])])
         lines.append(segs)
+    if len(lines) >= 2 and rng.random() < 0.1:
+        # a line of a single character ("I", "?", a note) between or after the others
+        lines.insert(rng.randrange(1, len(lines) + 1), [['t', rng.choice(['I', 'A', 'a', '?', '5', '\u266a', '\u2026', '-'])]])
     if fmt == 'webvtt' and len(lines) >= 2 and rng.random() < 0.12:
         # a line of blanks only is not the empty line that ends a cue
         lines.insert(rng.randrange(1, len(lines)), [['t', rng.choice([' ', '  ', '\t', '\u00a0', '\u3000 '])]])
